@@ -1049,3 +1049,53 @@ def _all_names(e):
             if isinstance(sub, tuple):
                 out |= _all_names(sub)
     return out
+
+
+# ---------------------------------------------------------------------------- OR-predicate filters (C43: Filter rewrite_filters)
+OR_SHAPES3 = ("XY|XZ|W", "XY|W|XZ", "W|XY|XZ")
+OR_SHAPES4 = ("XY|XZ|W|Z", "XY|W|XZ|WY", "W|XY|Z|XZ")
+
+
+def or_atoms(p, pool):
+    """pool of atomic predicates over the first two numeric columns of the frame p (each selects some but not all rows of the base data)"""
+    cols = list(p.columns)
+    num = [c for c in cols if kind_of(p[c].dtype) in ("int", "float", "nullable")]
+    if len(num) < 2:
+        return []
+    n0, n1 = num[0], num[1]
+    atoms = [B(">", C(n0), L(3)), B("==", C(n1), L(0)), B("==", C(n1), L(1)), B("<=", C(n0), L(2)), B("==", C(n1), L(2)), B(">", C(n0), L(5))]
+    return atoms[:pool]
+
+
+def or_filter_steps(p, pool=4):
+    """boolean filters whose predicate is an OR of 3 or 4 clauses in which two clauses share an AND-factor X that the other clause(s)
+    lack: EVERY assignment of distinct atoms of the pool to (X, Y, Z, W) x every clause shape/order of OR_SHAPES3 + OR_SHAPES4"""
+    import itertools
+
+    if not isinstance(p, pd.DataFrame) or not p.columns.is_unique:
+        return []
+    atoms = or_atoms(p, pool)
+    out = []
+    for x, y, z, w in itertools.permutations(range(len(atoms)), 4):
+        env = {"X": atoms[x], "Y": atoms[y], "Z": atoms[z], "W": atoms[w]}
+        for shape in OR_SHAPES3 + OR_SHAPES4:
+            clauses = []
+            for cl in shape.split("|"):
+                e = env[cl[0]]
+                for ch in cl[1:]:
+                    e = B("&", e, env[ch])
+                clauses.append(e)
+            pred = clauses[0]
+            for c in clauses[1:]:
+                pred = B("|", pred, c)
+            out.append(("item", X, pred))
+    return _dedup(out)
+
+
+def or_then_core(p, level="full"):
+    """family OR of C43: an OR-filter followed by a consumer of the core optimizer alphabet (the rewrite only fires below a parent)"""
+    if level == "or4":
+        return or_filter_steps(p, 4)
+    if level == "or5":
+        return or_filter_steps(p, 5)
+    return opt_steps_for(p, "core")
